@@ -15,3 +15,21 @@ pub const REGRESS: [&str; 24] = [
     // either-zone shapes
     "en-", "en--u-foo", "en-u", "en-x", "en-t", "en-t-u-foo", "en-x-",
 ];
+
+/// Real-world tags: IANA-registered variants and (formerly) grandfathered / redundant tags, CLDR alias sources,
+/// private-use and special region / script codes, romanisation variants, long language subtags.  Well-formed or not,
+/// every suite replays them: code that special-cases "known" subtags is only exercised by known subtags.
+pub const REALWORLD: [&str; 94] = [
+    "art-lojban", "cel-gaulish", "zh-guoyu", "zh-hakka", "zh-xiang", "no-bokmal", "no-nynorsk", "aa-saaho", "hy-arevmda",
+    "zh-min-nan", "i-klingon", "i-default", "sgn-BE-FR", "en-GB-oed", "zh-min", "zh-gan", "zh-wuu", "zh-yue",
+    "de-CH-1901", "de-1996", "sl-rozaj-biske-1994", "sl-IT-nedis", "de-DE-u-co-phonebk", "hy-Latn-IT-arevela",
+    "zh-Hant-TW-xiang", "no-NO-bokmal", "nn-NO-nynorsk", "art-Latn-lojban", "ART-LOJBAN", "zh_hakka",
+    "sr-Cyrl-ME", "sr-ME", "sr-Latn-ME", "zh-Hans-TW", "zh-Hans-HK", "pa-Guru-PK", "az-Latn-IR", "kk-Cyrl-CN", "mn-Cyrl-CN", "uz-Latn-AF",
+    "und-XK", "und-Latn-XK", "und-Cyrl-XK", "sq-XK", "sr-XK", "en-ZZ", "en-Zzzz", "en-Latn-ZZ", "und-Zzzz-PL", "und-ZZ", "und-Zzzz", "en-AA", "en-QO", "und-XA", "und-QM",
+    "he-alalc97", "ar-EG-alalc97", "ja-Latn-hepburn", "ja-hepburn-heploc", "zh-Latn-pinyin", "yue-jyutping", "zh-Latn-wadegile", "fa-alalc97", "ur-PK-alalc97",
+    "he-fonipa", "ar-fonipa", "en-fonipa", "ar-Latn-fonipa", "he-IL-valencia", "uz-AF-hepburn",
+    "undef", "undine", "Undulate", "UNDERGO", "unda", "undef-Latn-CH", "abund", "fundus",
+    "abcdefgh-Latn-US-variant1-variant2", "english-Latn-US-valencia-fonxsamp", "en-t-abcdefgh-h0-hybrid", "en-t-abcdefgh", "en-t-abcdefg", "en-t-abcde-Latn",
+    "en-u-true-ca-gregory", "fr-u-True-x-priv", "en-u-kf-upper-true", "en-t-h0-true-k0-dvorak", "en-t-k0-dvorak-h0-true", "en-u-kn-truex", "en-u-attr-true",
+    "en-US-posix", "ca-ES-valencia", "en-US-u-va-posix",
+];
